@@ -269,17 +269,20 @@ def check(run):
         for (k, fn) in pos:
             errs = PLAUSIBLE.get(fn, [E.EIO])
             chosen = errs if thorough else [errs[(k + run.seed) % len(errs)]]
+            if not thorough:      # plus the errno a retry loop would spin on
+                chosen += [e for e in (E.EINTR, E.EAGAIN) if e in errs and e not in chosen][:1]
             for e in chosen:
                 plans.append("%d:%d" % (k, e))
+        # every occurrence of one function fails with the errno a retry loop would spin on (EINTR / EAGAIN), else with its first plausible errno
+        for fn in sorted(set(f for _, f in pos)):
+            errs = PLAUSIBLE.get(fn, [E.EIO])
+            for e in ([x for x in (E.EINTR, E.EAGAIN) if x in errs] or errs[:1]):
+                plans.append("%s#*:%d" % (fn, e))
         if thorough and len(pos) >= 2:
             for _ in range(min(150, len(pos) * 2)):
                 (k1, f1), (k2, f2) = sorted(rng.sample(pos, 2))
                 plans.append("%d:%d,%d:%d" % (k1, rng.choice(PLAUSIBLE.get(f1, [E.EIO])), k2, rng.choice(PLAUSIBLE.get(f2, [E.EIO]))))
                 state["pairs"] += 1
-            # by (function, occurrence): every occurrence of one function fails
-            for fn in sorted(set(f for _, f in pos)):
-                n = len([1 for _, f in pos if f == fn])
-                plans.append(",".join("%s#%d:%d" % (fn, o, PLAUSIBLE.get(fn, [E.EIO])[0]) for o in range(min(n, 40))))
         # scripted results of the real exec vary as well
         rcs = [(-1, [E.ENOENT, E.EACCES, E.E2BIG, E.ENOEXEC][i % 4]) if i % 5 else (0, 0) for i in range(len(plans))]
         CH = 60
